@@ -20,6 +20,10 @@ CHECKS = {
   text="Bounded exhaustive enumeration: every glob over a 13-token grammar up to length 3 x all 16 option sets x every path over {a,b,.,/,-,A} up to length 5 (quick) / 6 (thorough) plus non-UTF-8 variants; single globs against an independent reference matcher written from the documented syntax, glob sets (singletons, all-glob sets, mixed-option set, all pairs/triples over a strategy-covering pool) against their member globs.",
   note="Trusted: regex-automata's matching of each member glob's regex; shapes beyond the length bounds are not explored.",
   tech="bounded exhaustive enumeration (all globs x options x paths up to a size bound) against a reference model"),
+ "C16": dict(cat="fault_enumeration", ref="DESIGN.md §4 C16",
+  text="Exhaustive crash-point enumeration on the real searcher: for every input up to a length bound, every configuration / binary mode / matcher path / strategy, the search is re-run once per result index k with the sink answering stop and once answering error (for every event kind: begin, matched, context, context_break, binary_data), and once per read index j with the reader failing and with the reader returning Interrupted; plus -m N through the standard printer for every N. Oracle: exact prefix of the uninterrupted event list, finish exactly once after a stop and never after an error, the injected error is what the caller gets.",
+  note="Trusted: the uninterrupted run of the same strategy as the reference list (C02/C03 check that list itself). Not judged: -m N in multi-line mode when two matching lines are adjacent (they are one block by design, DESIGN.md §8).",
+  tech="exhaustive fault / crash-point enumeration over all result and read indices of all small histories"),
 }
 
 NOT_YET = "check not built yet in this round (planned in DESIGN.md §10); not claimed until its engine is committed"
